@@ -117,11 +117,11 @@ prop("C08",
      scans=["number-writers"],
      level="proof",
      claim="every function in base/src that constructs a numeric cell value (array/spill converters, the scalar result guard, "
-           "Worksheet::set_cell_with_number) yields a finite number, so no built-in function or formula can leave NaN/inf in a cell; "
+           "Worksheet::set_cell_with_number) and the xlsx importer's parse_cell_number yields a finite number, so no built-in function, formula or numeric <v> element of a file can leave NaN/inf in a cell; "
            "closed-world scan number-writers confirms these are all the construction sites",
      assumptions=["f64::is_nan / is_infinite behave as vstd's is_nan_spec / is_infinite_spec", "the literal 0.0 is finite (assume in two converters)",
                   "D5 shells: CalcResult/CellReferenceIndex/Cell/Worksheet around the guard fragments; update_cell/new_number stubs"],
-     residual="numbers arriving through xlsx import / from_bytes (other crates / serialized data) are outside the scan")
+     residual="numbers arriving through from_bytes (bitcode-serialized workbooks) and non-cell numbers of a file (column widths, CF thresholds) are outside the scan")
 
 
 prop("C21",
